@@ -8,6 +8,7 @@ package scen
 
 import (
 	"fmt"
+	"os"
 	"net/http"
 	"net/http/httptest"
 	"net/url"
@@ -21,6 +22,7 @@ import (
 	"github.com/Oudwins/zog/i18n/es"
 	"github.com/Oudwins/zog/parsers/zjson"
 	"github.com/Oudwins/zog/zconst"
+	"github.com/Oudwins/zog/zenv"
 	"github.com/Oudwins/zog/zhttp"
 
 	"zogverif/mc"
@@ -342,6 +344,62 @@ func c09LangTableScenario(x *mc.X) *mc.Outcome {
 	return out
 }
 
+// The environment as a flat source with a nested record: variables that look like namespaced names of the
+// record's fields (DB_HOST next to HOST) are other variables. What each field reads must not depend on whether
+// the record was visited before or after its siblings.
+func c09EnvNamespaceScenario(x *mc.X) *mc.Outcome {
+	variant := x.Choose(3, "environment") // 0 flat only, 1 flat + DB_* variables, 2 flat + DB_* + DB_CACHE_*
+	run := func(om zh.OrderMode) (*Obs, string) {
+		zh.Reset()
+		zh.Install(x, zh.PoolLIFO, om)
+		env := map[string]string{"host": "flat-host", "port": "1", "ttl": "7", "name": "svc"}
+		if variant >= 1 {
+			env["DB_host"], env["DB_port"], env["DB_name"] = "db-host", "2", "db-name"
+		}
+		if variant >= 2 {
+			env["DB_CACHE_ttl"], env["CACHE_ttl"], env["DB_CACHE_host"] = "99", "98", "cache-host"
+		}
+		for k, v := range env {
+			os.Setenv(k, v)
+		}
+		defer func() {
+			for k := range env {
+				os.Unsetenv(k)
+			}
+		}()
+		s := z.Struct(z.Schema{
+			"name": z.String(),
+			"host": z.String(),
+			"db":   z.Struct(z.Schema{"host": z.String(), "port": z.Int(), "cache": z.Struct(z.Schema{"ttl": z.Int(), "host": z.String()})}),
+			"port": z.Int(),
+		})
+		var d struct {
+			Name, Host string
+			Port       int
+			Db         struct {
+				Host  string
+				Port  int
+				Cache struct {
+					Ttl  int
+					Host string
+				}
+			}
+		}
+		o := RunParse(s, zenv.NewDataProvider(), reflect.ValueOf(&d))
+		zh.Reset()
+		return o, fmt.Sprintf("%+v", d)
+	}
+	bo, bd := run(zh.OrderSorted)
+	po, pd := run(zh.OrderFree)
+	out := &mc.Outcome{Traces: 2, Nontrivial: true, Sig: fmt.Sprintf("envns|%d|%s", variant, bd)}
+	out.Sample = map[string]any{"environment_variant": variant, "dest": bd, "issues": bo.IssueStrings()}
+	if bo.Panic != po.Panic || !eqStrings(bo.IssueStrings(), po.IssueStrings()) || bd != pd {
+		x.Note("environment variant %d (0 flat variables only, 1 plus DB_<field> variables, 2 plus DB_CACHE_<field>); schema {name, host, port, db:{host, port, cache:{ttl, host}}}", variant)
+		out.Viol = append(out.Viol, &mc.Violation{Key: "C09:environment-namespaces", What: "what a field reads from the environment depends on the order in which the record and its siblings were visited", Expected: bd + " " + fmt.Sprint(bo.IssueStrings()), Observed: pd + " " + fmt.Sprint(po.IssueStrings())})
+	}
+	return out
+}
+
 // Many records that are rejected (a scalar where a record is expected) next to sibling records that are fine:
 // whatever the library counts while rejecting must not spill over into the siblings, in any visit order.
 type c09RejRec struct{ A string }
@@ -477,6 +535,7 @@ func init() {
 			items = append(items, Item{Name: "shared-error-value", MaxDevs: -1, Run: c09SharedIssueScenario})
 			items = append(items, Item{Name: "rejected-records-next-to-records", MaxDevs: -1, Run: c09RejectedRecordsScenario})
 			items = append(items, Item{Name: "language-tables", MaxDevs: -1, Run: c09LangTableScenario})
+			items = append(items, Item{Name: "environment-namespaces", MaxDevs: -1, Run: c09EnvNamespaceScenario})
 			// every message is the formatter's answer for its own issue, whatever was formatted just before it:
 			// the shape grammar and the small catalogue skeletons again, under a formatter that names path and code
 			for _, it := range coreItemsFiltered(tier, c09Scenario, func(a *Alpha) { a.Lite = true }, []int{0, 1}, 2, func(ns NamedSkel) bool {
